@@ -16,6 +16,8 @@ Import-free (linked into the driver). Protocol kinds are answered by `handleFloo
       -> `ok= n= term= sum= pops= left=`: the stack flood from the given stack over the available pixels: dereferenced positions
          (all behind `validposition`), `term` = the stack was drained within the fuel (default: stack length + number of
          available pixels + 1), `pops`, `left` = number of still available pixels.
+  kind=regscan shape=<ints> marks=<0/1 flat> wit=<0/1 flat: the pixel has a fake-extremum witness> bshape= bimg=
+      -> `ok= n= term= sum= left=`: the outer scan of `remove_fake_regmin_max` over all positions with its floods.
 -/
 import Mahotas.Model.Basic
 import Mahotas.Model.C14
@@ -139,6 +141,30 @@ def floodRun (shape : List Nat) (nb : List (List Int)) :
 /-- number of set flags -/
 def cntTrue (av : Array Bool) : Nat := av.toList.countP id
 
+
+/-! ## `remove_fake_regmin_max`: the outer scan with its floods -/
+
+/-- `for (i = 0; i != N; ++i, ++riter) { if (!*riter) continue; pos = riter.position(); for every neighbour: npos = pos + delta;
+    if (f.validposition(npos) && !regmin.at(npos) && f.at(npos) <=/>= val) { regmin.at(pos) = false; stack.push(pos); flood; break; } }`.
+    `witness p av` abstracts the value test on the neighbours of `p` (any outcome). The positions visited are the iterator's
+    (inside by construction); the neighbour probes are `visitAccesses`; a marked pixel with a witness is cleared and flooded
+    with fuel `1 + #marked`. Returns all dereferenced positions, "every flood drained its stack", and the final marks. -/
+def regScan (shape : List Nat) (nb : List (List Int)) (witness : List Int → Array Bool → Bool) :
+    List (List Int) → Array Bool → List PAcc × Bool × Array Bool
+  | [], av => ([], true, av)
+  | p :: ps, av =>
+    if av.getD (ravelI shape p) false then
+      let probes := PAcc.mk p shape :: visitAccesses shape nb p
+      if witness p av then
+        let av' := av.setIfInBounds (ravelI shape p) false
+        let r := floodRun shape nb (1 + cntTrue av') av' [p]
+        let t := regScan shape nb witness ps r.2.2.2.2
+        (probes ++ r.1 ++ t.1, r.2.1 && t.2.1, t.2.2)
+      else
+        let t := regScan shape nb witness ps av
+        (probes ++ t.1, t.2.1, t.2.2)
+    else regScan shape nb witness ps av
+
 /-! ## driver -/
 
 def sI (l : List Int) : Int := l.foldl (· + ·) 0
@@ -175,6 +201,18 @@ def handleFlood (a : Args) : Option String :=
     let r := floodRun shape nb fuel av st
     some (s!"ok={b2s (pAllOk r.1 && r.2.1)} n={r.1.length} term={b2s r.2.1} sum={sI (r.1.map fun x => ravelZ shape x.pos)} " ++
           s!"pops={r.2.2.1} maxstack={r.2.2.2.1} left={cntTrue r.2.2.2.2}")
+  | "regscan" =>
+    let shape := a.nats "shape"
+    let bshape := a.nats "bshape"
+    let bimg := a.ints "bimg"
+    let centre := bshape.map fun d => Int.ofNat (d / 2)
+    let nb := ((allPos bshape).zip bimg).filterMap fun kb =>
+      if kb.2 != 0 && kb.1 != centre then some (subPos kb.1 centre) else none
+    let av := ((a.ints "marks").map (· != 0)).toArray
+    let wit := a.ints "wit"
+    let r := regScan shape nb (fun p _ => wit.getD (ravelI shape p) 0 != 0) (allPos shape) av
+    some (s!"ok={b2s (pAllOk r.1 && r.2.1)} n={r.1.length} term={b2s r.2.1} sum={sI (r.1.map fun x => ravelZ shape x.pos)} " ++
+          s!"left={cntTrue r.2.2}")
   | _ => none
 
 end Mahotas.C10Flood
